@@ -209,3 +209,142 @@ func GenFramesProgram(r *rand.Rand) *Program {
 	}
 	return p
 }
+
+// ---- directed frame scenarios (c29): call kind x effect x ending, systematically ----
+
+// FrameKinds are the instructions that open a frame.
+var FrameKinds = []vm.OpCode{vm.CALL, vm.STATICCALL, vm.DELEGATECALL, vm.CALLCODE, vm.CREATE, vm.CREATE2}
+
+// FrameEffects name what the inner frame does before it ends.
+var FrameEffects = []string{"sstore-set", "sstore-clear", "sstore-clear-reset", "sstore-reset-original", "sstore-recreate", "tstore", "log",
+	"send", "sload-cold", "balance-cold", "create", "selfdestruct", "nested-ok-write"}
+
+// FrameEndings name how the inner frame ends.
+var FrameEndings = []string{"stop", "revert", "invalid", "oog"}
+
+func effect(a *Asm, e string) {
+	switch e {
+	case "sstore-set":
+		a.Push(7).Push(2).Op(vm.SSTORE) // slot 2: 0 -> 7
+	case "sstore-clear":
+		a.Push(0).Push(1).Op(vm.SSTORE) // slot 1 holds 5 in the pre-state: refund counter grows
+	case "sstore-clear-reset":
+		a.Push(0).Push(1).Op(vm.SSTORE).Push(9).Push(1).Op(vm.SSTORE) // refund granted, then taken back
+	case "sstore-reset-original":
+		a.Push(6).Push(1).Op(vm.SSTORE).Push(5).Push(1).Op(vm.SSTORE) // dirty, then back to the original value
+	case "sstore-recreate":
+		// the OUTER frame cleared slot 1 (refund granted there); re-creating it here takes the refund
+		// back inside the inner frame (same storage under DELEGATECALL / CALLCODE)
+		a.Push(9).Push(1).Op(vm.SSTORE)
+	case "tstore":
+		a.Push(3).Push(1).Op(vm.TSTORE)
+	case "log":
+		a.Push(4).Push(8).Push(0).Op(vm.LOG1)
+	case "send":
+		a.Push(0).Push(0).Push(0).Push(0).Push(2).PushAddr(HelperC).Push(0).Op(vm.CALL, vm.POP)
+	case "sload-cold":
+		a.Push(3).Op(vm.SLOAD, vm.POP)
+	case "balance-cold":
+		a.PushAddr(NoSuch).Op(vm.BALANCE, vm.POP)
+	case "create":
+		// mem[0] = PUSH1 1 PUSH1 2 SSTORE STOP (initcode writing a slot of the new account)
+		a.PushBytes([]byte{0x60, 0x01, 0x60, 0x02, 0x55, 0x00}).Push(0).Op(vm.MSTORE)
+		a.Push(6).Push(26).Push(0).Op(vm.CREATE, vm.POP)
+	case "selfdestruct":
+		// nothing here: the ending is replaced by SELFDESTRUCT (see DirectedCallee)
+	case "nested-ok-write":
+		// a successful inner CALL to HelperB (which writes and stops), then this frame ends
+		a.Push(0).Push(0).Push(0).Push(0).Push(0).PushAddr(HelperB).Push(60000).Op(vm.CALL, vm.POP)
+	}
+}
+
+// DirectedCallee is the code run by the inner frame.
+func DirectedCallee(e, ending string) []byte {
+	a := NewAsm()
+	effect(a, e)
+	if e == "selfdestruct" && ending == "stop" {
+		return a.PushAddr(HelperC).Op(vm.SELFDESTRUCT).Bytes()
+	}
+	if e == "selfdestruct" {
+		// sweep first through a nested successful frame is not possible; do a value send instead, then fail
+		effect(a, "send")
+	}
+	switch ending {
+	case "stop":
+		a.Op(vm.STOP)
+	case "revert":
+		a.Push(0).Push(0).Op(vm.REVERT)
+	case "invalid":
+		a.Op(vm.INVALID)
+	case "oog":
+		a.Label("spin").Jump("spin")
+	}
+	return a.Bytes()
+}
+
+// DirectedFrames builds the wrapper (run at Main) and the helper set of one scenario: Main does
+// an effect of its own, opens the inner frame with `kind`, and then stops or fails itself
+// (outerFails), so that both the inner and the outer restore are exercised.
+func DirectedFrames(kind vm.OpCode, e, ending string, outerFails bool) *Program {
+	callee := DirectedCallee(e, ending)
+	p := &Program{Name: "directed", Helpers: map[common.Address][]byte{
+		HelperA: callee,
+		HelperB: NewAsm().Push(1).Push(0).Op(vm.SSTORE, vm.STOP).Bytes(), // writes slot 0 and stops
+		HelperC: {byte(vm.STOP)},
+	}}
+	a := NewAsm()
+	a.Push(2).Push(0).Op(vm.SSTORE) // the outer frame's own effect
+	if e == "sstore-recreate" {
+		a.Push(0).Push(1).Op(vm.SSTORE) // clear a slot that holds 5 in the pre-state: refund granted in the outer frame
+	}
+	gas := uint64(120000)
+	switch kind {
+	case vm.CREATE, vm.CREATE2:
+		// the inner frame runs `callee` as initcode: mem[0..len) = code tail
+		a.Push(uint64(len(callee))).PushLabel("d").Push(1).Op(vm.ADD).Push(0).Op(vm.CODECOPY)
+		if kind == vm.CREATE2 {
+			a.Push(1)
+		}
+		a.Push(uint64(len(callee))).Push(0).Push(1).Op(kind, vm.POP)
+	default:
+		a.Push(0).Push(0).Push(0).Push(0)
+		if kind == vm.CALL || kind == vm.CALLCODE {
+			a.Push(1)
+		}
+		a.PushAddr(HelperA).Push(gas).Op(kind, vm.POP)
+	}
+	a.Push(4).Push(3).Op(vm.SSTORE) // something after the inner frame
+	if outerFails {
+		a.Push(0).Push(0).Op(vm.REVERT)
+	}
+	a.Op(vm.STOP)
+	a.Label("d")
+	a.Raw(callee...)
+	p.Code = a.Bytes()
+	return p
+}
+
+// MinFork is the first rule set on which every instruction of the scenario exists.
+func MinFork(kind vm.OpCode, e, ending string) int {
+	m := Frontier
+	up := func(f int) {
+		if f > m {
+			m = f
+		}
+	}
+	switch kind {
+	case vm.DELEGATECALL:
+		up(Homestead)
+	case vm.STATICCALL:
+		up(Byzantium)
+	case vm.CREATE2:
+		up(Constantinople)
+	}
+	if ending == "revert" {
+		up(Byzantium)
+	}
+	if e == "tstore" {
+		up(Cancun)
+	}
+	return m
+}
